@@ -50,7 +50,7 @@ theorem SimW.setArrM (wf : X.WF) {w : Nat} {a : ArrId} (ha : X.a0 ≤ a) {fA fB 
     SimW X w EqR (Sel.setArrM a fA) (Sel.setArrM a fB) := by
   intro sA sB hs hw
   have hx := hf _ _ _ hw (hs.heap.arrs a ha)
-  have r1 := hs.heap.setArr a hx (Nat.le_refl _)
+  have r1 := hs.heap.setArr ha hx (Nat.le_refl _)
   exact ⟨Nat.le_refl _, rfl, hs.withHeap wf r1 (Nat.le_refl _)⟩
 
 
